@@ -148,6 +148,9 @@ CORPUS = {
     "modulo-index-with-negative-dividend": S("ring = [10, 20, 30, 40]\nhead = 0\nwhile True:\n    mon.write(ring[(head - 1) % 4])\n    mon.write(ring[(head - 3) % len(ring)])\n    head = (head + 1) % 4\n    sleep(5)\n"),
     "helper-assignment-to-a-name-of-a-module-variable-is-local": S("label = 'ab'\nn = 3\ncount = 0\ndef f():\n    label = 'abcdefg'\n    n = 50\n    return len(label) + n\ndef bump():\n    global count\n    count = count + 1\n"
                                                                    "mon.write(len(label))\nmon.write(f())\nmon.write(len(label) + n)\nmon.write(label)\nbump()\nbump()\nmon.write(count)\n"),
+    "tuple-target-assignment-in-helper-is-local": S("lo = 1\nhi = 9\ndef span(a, b):\n    lo, hi = a, b\n    lo, hi = hi, lo\n    return lo - hi\nmon.write(span(2, 7))\nmon.write(lo)\nmon.write(hi)\ndef pair(v):\n    [lo, hi] = [v, v + 1]\n    return lo + hi\nmon.write(pair(4))\nmon.write(lo + hi)\n"),
+    "chained-comparison-with-local-left-operand": S("def inside(low):\n    return low < abs(low + 1) < 900\nk = 0\nwhile True:\n    low = k + 1\n    if low < abs(k + 5) < 900:\n        mon.write(1)\n    for i in range(2):\n        if i < abs(k + 1) < 50:\n            mon.write(i)\n"
+                                                    "    mon.write(inside(k))\n    k = k + 1\n    sleep(5)\n"),
     "main-loop-header-with-trailing-comment": S("k = 0\nwhile True:  # main loop\n    k = k + 1\n    mon.write(k)\n    sleep(5)\n"),
     "sleep-in-branches": S("k = 0\nwhile True:\n    if k % 2 == 0:\n        sleep(100)\n    else:\n        sleep(250)\n    k = k + 1\n    mon.write(k)\n"),
 }
